@@ -6,7 +6,7 @@ shift
 IDS=${*:-C01 C02 C03 C04 C05 C06 C07 C08 C09 C10 C11 C12 C13 C14 C15 C16 C17 C18 C19 C20}
 for id in $IDS; do
   s=$(date +%s)
-  ./check $id --tier $TIER > /tmp/w/all_$id.log 2>&1
+  ./check $id --tier $TIER > ${LOGDIR:-/tmp/w}/all_$id.log 2>&1
   rc=$?
-  echo "$id rc=$rc $(( $(date +%s) - s ))s $(grep -c '^VIOLATION' /tmp/w/all_$id.log) violations; $(tail -1 /tmp/w/all_$id.log | cut -c1-160)"
+  echo "$id rc=$rc $(( $(date +%s) - s ))s $(grep -c '^VIOLATION' ${LOGDIR:-/tmp/w}/all_$id.log) violations; $(tail -1 ${LOGDIR:-/tmp/w}/all_$id.log | cut -c1-160)"
 done
